@@ -11,6 +11,13 @@ carry no graph.  The simulated-market part also runs with the hedger in evaluati
 after fit(validation=True) which leaves it there) and with user models built from pfhedge's own modules:
 a no-transaction-band strategy whose trainable band edges are the tensor-valued bounds of Clamp /
 LeakyClamp, and a Black-Scholes delta evaluated at trainable (shifted / marked-up) inputs.
+Quantities computed WITH a graph on request (price_gradient, every simulated-market case, all criteria and model kinds / modes): price(n_times, enable_grad=True)
+and compute_loss as functions of the parameters AND of the initial spot (init_state a tensor that requires grad: the graph runs through the simulated paths):
+the back-propagated gradient of the price vs the derivative of the price from its defining relation loss(c 1) = loss(pl), c = -price (for the cash-invariant
+criteria - expected shortfall, entropic risk measure, quadratic CVaR - the gradient of compute_loss on the same paths; implicit function theorem otherwise:
+entropic loss, and the search-based cash amounts of OCE / isoelastic / user criteria, one key grad:price:search-cash) and vs finite differences; the loss along
+the initial spot vs finite differences.  On the injected markets (check_cash_gradient, main loop and H >= 2): grad of -criterion.cash(portfolio, payoff) vs the
+gradient of the loss (ERM, ES) resp. grad loss / (a loss) (entropic loss).
 Inside fit (check_fit_steps): the gradient handed to the optimiser at EVERY step (a recording optimiser, instance or class,
 owning parameters inside and outside hedger.parameters(), >= 2 epochs, with and without a backward pass made before fit) vs
 autograd / finite differences of that epoch's loss on that epoch's recorded paths, and vs the Lean op "grad_h".
@@ -19,6 +26,42 @@ import math
 from fractions import Fraction as F
 from common import *  # noqa
 from hedge_common import *  # noqa
+
+
+def check_cash_gradient(ctx, torch, hedger, d, crit, critk, a, params, hedge, loss, gflat, case, tag):
+    """A quantity computed WITH a graph on request: the price of the position, -criterion.cash(compute_portfolio(d, hedge), d.payoff()) -- what
+    Hedger.price(enable_grad=True) evaluates on a batch -- for the criteria whose cash amount has a documented closed form.  On the same (injected)
+    paths, at the same parameters, its back-propagated gradient is fixed by the gradient of the hedging loss (already compared with finite
+    differences and with the model): cash = -loss(pl) for the entropic risk measure and the expected shortfall (the price IS the loss), and
+    cash = log(loss(pl)) / (-a) for the entropic loss, i.e. grad price = grad loss / (a loss).  Both sides are reverse-mode derivatives of float64
+    computations through the same hedge and P&L: 1e-9 of the scale."""
+    if critk not in ("erm", "es", "eloss"):
+        return
+    kw = {} if hedge is None else {"hedge": hedge}
+
+    def price_fn():
+        pf = hedger.compute_portfolio(d, **kw)
+        return -crit.cash(pf, d.payoff())
+    st, pr, _ = call_impl(price_fn)
+    gs = pr
+    if st == "ok":
+        st, gs, _ = (call_impl(torch.autograd.grad, pr, params, allow_unused=True) if pr.requires_grad else ("ok", [None] * len(params), []))
+    if st != "ok":
+        ctx.fail("computing / back-propagating the price -criterion.cash(portfolio, payoff) with gradients enabled raised", case, key=f"{tag}:cash:error", detail=gs)
+        return
+    got = []
+    for p_, gr in zip(params, gs):
+        got += ([0.0] * p_.numel() if gr is None else [float(x) for x in gr.reshape(-1).tolist()])
+    lossv = float(loss.detach())
+    want = gflat[:len(got)] if critk != "eloss" else [x / (a * lossv) for x in gflat[:len(got)]]
+    ctx.stats[f"{tag}:cash_gradient:{critk}"] += 1
+    scale = max([1.0] + [abs(x) for x in got + want])
+    badi = [i for i, (a_, b_) in enumerate(zip(got, want)) if not abs(a_ - b_) <= 1e-9 * scale]
+    if badi:
+        ctx.fail("the back-propagated gradient of the price -criterion.cash(portfolio, payoff) (closed-form cash amount) is not the derivative of that price: "
+                 + ("it differs from the gradient of the hedging loss, which this price equals" if critk != "eloss" else
+                    "it differs from grad loss / (a loss), the gradient of log(loss) / a"), case, key=f"{tag}:cash:{critk}",
+                 detail={"autograd_of_price": got, "derivative": want, "params": badi})
 
 
 def check_multi(ctx, torch, nn, Hedger):
@@ -199,6 +242,7 @@ def check_multi(ctx, torch, nn, Hedger):
             ctx.fail("the back-propagated gradient of the hedging loss (several hedging instruments) differs from the derivative of the loss "
                      "(finite differences on the same paths)", case,
                      key=f"grad_h:{'stateful' if stateful else 'batched'}:{critk}", detail={"autograd": gflat, "finite_difference": fd, "params": badi})
+        check_cash_gradient(ctx, torch, hedger, d, crit, critk, a, params, hedge, loss, gflat, case, "grad_h")
         # ---- model (dual numbers), op "grad_h"
         layers = [{"w": enc_flt([[float(x) for x in r] for r in l["w"]]), "b": enc_flt([float(x) for x in l["b"]])}
                   for l in (ms["layers"] if ms["kind"] == "mlp" else [ms])]
@@ -606,6 +650,7 @@ def check(ctx):
         if badi:
             ctx.fail("the back-propagated gradient of the hedging loss differs from the derivative of the loss (finite differences on the same paths)",
                      case, key=f"grad:{'stateful' if stateful else 'batched'}:{critk}", detail={"autograd": gflat, "finite_difference": fd, "params": badi})
+        check_cash_gradient(ctx, torch, hedger, d, crit, critk, a, params, None, loss, gflat, case, "grad")
         # ---- model (dual numbers)
         crit_spec = {"erm": ["erm", float_bits(a)], "eloss": ["eloss", float_bits(a)], "es": ["es", k], "mse": ["mse"], "mean": ["mean"]}[critk]
         layers = [{"w": enc_flt([[float(x) for x in r] for r in l["w"]]), "b": enc_flt([float(x) for x in l["b"]])}
@@ -739,6 +784,172 @@ def check(ctx):
                 prev = input[..., [len(self.names)]]
                 out = prev + torch.sigmoid(self.mix) * (out - prev)
             return out
+    # ---------------- quantities computed WITH a graph on request: price(enable_grad=True), and the loss, as functions of the parameters AND of the
+    # initial spot (the graph then runs through the simulated paths)
+    CASH_INVARIANT = ("erm", "es", "qcvar")      # documented closed form cash = -loss(pl): the price is the loss of the hedged position
+    CLOSED_FORM = CASH_INVARIANT + ("eloss",)    # (entropic loss: closed form too); every other criterion: HedgeLoss.cash's default binary search
+    gp = Gen(f"{ctx.seed}:price_grad")           # (own generator: the cases of the other parts do not move)
+
+    def price_gradient(hedger, d, stock, model, crit, embed, cname, kind, sfx, one_key, case, k, npaths):
+        """price(n_times=k, enable_grad=True) under a seed, with the initial spot a tensor that requires grad: its back-propagated gradient with
+        respect to every parameter (model, criterion, feature network) and to the initial spot vs the derivative of the SAME quantity:
+          (a) exactly: the price p of one batch is defined by loss(constant sample -p) = loss(pl) (the documented meaning of `cash`), so by the
+              implicit function theorem d p / d x = -(d_x loss(pl) - d_x loss(c 1)) / d_c loss(c 1) at c = -p, for every x; for the cash-invariant
+              criteria (expected shortfall, entropic risk measure, quadratic CVaR) that is d p / d x = d loss(pl) / d x: the gradient of
+              compute_loss on the same paths.  The right-hand sides are gradients of the hedging loss (compared with finite differences here and
+              below) and of the criterion at a constant sample; an ensemble is the mean of its members.  Closed-form cash amounts: 1e-9 of the scale;
+              search-based ones (c known to the search precision 1e-6): 1e-5; float32 parameters (OCE's w): 1e-5.
+          (b) central finite differences on the same paths: of the loss (every criterion) along the initial spot (along every parameter: further
+              below), and of the price along the initial spot and along a direction through all float64 parameters (closed-form cash amounts only; a
+              search-based price is defined up to 1e-6 and a step of the usual size moves it by less, a step large against 1e-6 crosses the kinks
+              of |position change| and of the tail of 4 .. 7 paths: for those (a) is the predicate).  Steps 2^-20 (2e-5 of the scale), then 2^-28
+              (1e-3), as everywhere in this file.
+        A backward pass that raises with the initial spot a tensor that requires grad is reported under one key per primary class; the case is then
+        evaluated again with the initial spot a constant (derivatives with respect to the parameters only)."""
+        xs_par = list(model.parameters()) + list(crit.parameters()) + (list(embed.parameters()) if embed is not None else [])
+        spot0 = gp.choice([0.96875, 0.9375, 1.0625, 1.125])      # (not the strike: a lookback payoff max(S) - K has its kink there)
+        seed = gp.randint(0, 10 ** 6)
+        dirs_par = [torch.tensor([gp.choice([-1.0, -0.5, 0.5, 1.0]) if p_.dtype == dt else 0.0 for _ in range(p_.numel())], dtype=p_.dtype).reshape(p_.shape)
+                    for p_ in xs_par]
+        rest = tuple(stock.default_init_state)[1:]      # (Heston: the initial variance stays the default)
+        search = cname not in CLOSED_FORM
+        case = case | {"price_gradient": True, "initial_spot": spot0, "seed": seed, "cash": "binary search" if search else "closed form"}
+        # one key for the whole class of search-based cash amounts; one per criterion (and model kind / mode) otherwise
+        key = "grad:price:search-cash" if search else (one_key or f"grad:price:{cname}{sfx}")
+        ctx.case(case, True, tag="price_grad")
+        ctx.stats[f"price_grad:crit={cname}"] += 1
+        # a failing backward pass through the SIMULATION (initial spot -> paths) is a matter of the primary, whatever the criterion / model / mode: one
+        # key per primary class; the derivatives with respect to the parameters are then checked with the initial spot a constant
+        if not price_gradient_at(True, xs_par, spot0, seed, dirs_par, rest, search, key, hedger, d, stock, model, crit, cname, kind, sfx, one_key, case, k, npaths):
+            ctx.stats["price_grad:initial_spot_constant_after_error"] += 1
+            price_gradient_at(False, xs_par, spot0, seed, dirs_par, rest, search, key, hedger, d, stock, model, crit, cname, kind, sfx, one_key, case, k, npaths)
+
+    def price_gradient_at(with_spot, xs_par, spot0, seed, dirs_par, rest, search, key, hedger, d, stock, model, crit, cname, kind, sfx, one_key, case, k, npaths):
+        s0 = torch.tensor(spot0, dtype=dt, requires_grad=with_spot)
+        xs = xs_par + ([s0] if with_spot else [])
+        sim_key = f"grad:initial-spot:{type(stock).__name__}:error"
+
+        def flat(gs):
+            out = []
+            for x_, gr in zip(xs, gs):
+                out += ([0.0] * x_.numel() if gr is None else [float(v) for v in gr.reshape(-1).tolist()])
+            return out
+
+        def grad_of(t_, wrt=None):
+            """(a quantity that carries no graph moves with nothing: zero gradient; its absence is reported by the graph predicates)"""
+            if not t_.requires_grad:
+                return "ok", [0.0] * sum(x_.numel() for x_ in (wrt or xs))
+            st_, gs_, _ = call_impl(torch.autograd.grad, t_, wrt or xs, allow_unused=True)
+            return st_, (flat(gs_) if st_ == "ok" and wrt is None else gs_)
+
+        def run(fn, n_times, graph, spot):
+            return call_impl(fn, d, n_paths=npaths, n_times=n_times, init_state=(spot,) + rest, enable_grad=graph)
+        torch.manual_seed(seed)
+        st, pk, _ = run(hedger.price, k, True, s0)
+        gpk = pk
+        if st == "ok":
+            st, gpk = grad_of(pk)
+        if st != "ok":
+            ctx.fail("price(enable_grad=True)" + (" with the initial spot a tensor that requires grad" if with_spot else "") + ", or its backward pass, raised", case,
+                     key=sim_key if with_spot else key + ":error", detail=gpk)
+            return False
+        torch.manual_seed(seed)
+        st, lk, _ = run(hedger.compute_loss, k, True, s0)
+        glk = lk
+        if st == "ok":
+            st, glk = grad_of(lk)
+        members = []
+        torch.manual_seed(seed)
+        for _ in range(k if st == "ok" else 0):
+            st, l_, _ = run(hedger.compute_loss, 1, True, s0)
+            gl_ = l_
+            if st == "ok":
+                st, gl_ = grad_of(l_)
+            if st != "ok":
+                glk = gl_
+                break
+            members.append(gl_)
+        if st != "ok":
+            ctx.fail("compute_loss" + (" with the initial spot a tensor that requires grad" if with_spot else "") + ", or its backward pass, raised", case,
+                     key=sim_key if with_spot else f"grad:simulated:{cname}{sfx}:backward-error", detail=glk)
+            return False
+        torch.manual_seed(seed)
+        cs = [-float(hedger.price(d, n_paths=npaths, n_times=1, init_state=(s0.detach(),) + rest)) for _ in range(k)]
+        pv, lv = float(pk.detach()), float(lk.detach())
+        if not all(math.isfinite(x) for x in [pv, lv] + cs + glk + [y for m_ in members for y in m_]):
+            ctx.stats["price_grad:loss_or_its_gradient_non_finite"] += 1      # (reported by the predicates on the loss below)
+            return True
+        ctx.traces += 1
+        if not all(math.isfinite(x) for x in gpk):
+            ctx.fail("the back-propagated gradient of price(enable_grad=True) has NaN / infinite entries although the price, the loss and the gradient of "
+                     "the loss on the same paths are finite", case, key=key + ":non-finite", detail={"autograd_of_price": gpk, "autograd_of_loss": glk})
+            return True
+        # ---- (a) the derivative of the price from its defining relation
+        exp = []
+        for gl_, c_ in zip(members, cs):
+            if cname in CASH_INVARIANT:
+                exp.append(gl_)
+                continue
+            c = torch.tensor(c_, dtype=dt, requires_grad=True)
+            lc = crit(c * torch.ones(npaths, dtype=dt))
+            gc = torch.autograd.grad(lc, [c] + xs, allow_unused=True)
+            dc, gcf = float(gc[0]), flat(gc[1:])
+            exp.append([-(a_ - b_) / dc for a_, b_ in zip(gl_, gcf)])
+        want = [sum(col) / k for col in zip(*exp)]
+        ptol = []
+        for x_ in xs:
+            ptol += [(1e-5 if search else 1e-9) if x_.dtype == dt else 1e-5] * x_.numel()
+        scale = max([1.0] + [abs(x) for x in gpk + want])
+        badi = [i for i, (a_, b_, t_) in enumerate(zip(gpk, want, ptol)) if not abs(a_ - b_) <= t_ * scale]
+        if badi:
+            ctx.fail("the back-propagated gradient of price(enable_grad=True) with respect to the parameters" + (" / the initial spot (last entry)" if with_spot else "")
+                     + " is not the derivative "
+                     "of the price: " + ("the price of a cash-invariant criterion is the hedging loss of the position, and its gradient differs from the gradient of "
+                                         "compute_loss on the same paths" if cname in CASH_INVARIANT else
+                                         "it differs from -(d loss(pl) - d loss(c 1)) / d_c loss(c 1), the derivative of the solution c = -price of loss(c 1) = loss(pl)"),
+                     case, key=key, detail={"autograd_of_price": gpk, "derivative": want, "entries": badi, "price": pv, "loss": lv})
+        # ---- (b) central finite differences on the same paths: initial spot / all float64 parameters
+        if kind in ("ntb-clamp", "ntb-leaky"):      # generic point?  (as below)
+            model.margin = float("inf")
+            torch.manual_seed(seed)
+            run(hedger.compute_loss, k, False, s0.detach())
+            if not model.margin >= 2.0 ** -16:
+                ctx.stats["price_grad:rejected_near_kink"] += 1
+                return True
+        saved = [p_.detach().clone() for p_ in xs_par]
+
+        def value_at(fn, t, dp, dspot):
+            with torch.no_grad():
+                for p_, v_, d_ in zip(xs_par, saved, dp):
+                    p_.copy_(v_ + t * d_)
+            try:
+                torch.manual_seed(seed)
+                return float(fn(d, n_paths=npaths, n_times=k, init_state=(torch.tensor(spot0 + t * dspot, dtype=dt),) + rest, enable_grad=False))
+            finally:
+                with torch.no_grad():
+                    for p_, v_ in zip(xs_par, saved):
+                        p_.copy_(v_)
+        zero = [torch.zeros_like(p_) for p_ in xs_par]
+        for what, fn, gvec, val in (("loss", hedger.compute_loss, glk, lv), ("price", hedger.price, gpk, pv)):
+            if what == "price" and search:
+                continue
+            for dname, dp, dspot in (("initial-spot", zero, 1.0), ("parameters", dirs_par, 0.0)):
+                if (dspot and not with_spot) or (what == "loss" and not dspot):      # (the loss along every single parameter: below)
+                    continue
+                ana = sum(g_ * e_ for g_, e_ in zip(gvec, [float(v) for t_ in dp for v in t_.reshape(-1).tolist()] + [dspot]))
+                for h, tol in ((2.0 ** -20, 2e-5), (2.0 ** -28, 1e-3)):
+                    fd = (value_at(fn, h, dp, dspot) - value_at(fn, -h, dp, dspot)) / (2 * h)
+                    scale = max(1.0, abs(fd), abs(val))
+                    ok = abs(ana - fd) <= tol * scale
+                    if ok:
+                        break
+                if not ok:
+                    fkey = (key + ":fd") if what == "price" else (one_key or f"grad:simulated:{cname}{sfx}" + (":initial-spot" if dspot else ""))
+                    ctx.fail(f"the back-propagated gradient of the {'hedging loss' if what == 'loss' else 'price (enable_grad=True)'} along "
+                             + ("the initial spot" if dspot else "a direction through all float64 parameters")
+                             + " differs from the derivative of the same quantity (central finite differences on the same simulated paths)", case | {"direction": dname},
+                             key=fkey, detail={"autograd": ana, "finite_difference": fd, "value": val})
+        return True
     n_lin = 60 if ctx.tier == "quick" else 450
     NEW_KINDS = ["ntb-clamp", "ntb-leaky", "bs-wrapped", "bs-wrapped-batched"]
     n_new = 20 if ctx.tier == "quick" else 196
@@ -823,6 +1034,7 @@ def check(ctx):
         l1 = hedger.compute_loss(d, n_paths=npaths, n_times=k)
         if not l1.requires_grad:
             ctx.fail("compute_loss() carries no graph although gradients are enabled", case, key=one_key or "graph:compute_loss-enable" + sfx)
+        price_gradient(hedger, d, stock, model, crit, embed, cname, kind, sfx, one_key, case, k, npaths)
         # ---- gradient of the ensemble loss: autograd vs (a) mean of the k single-batch gradients under the same random seed,
         #      (b) central finite differences of the loss re-evaluated under that seed (same paths)
         params = list(model.parameters()) + list(crit.parameters()) + (list(embed.parameters()) if embed is not None else [])
@@ -923,6 +1135,16 @@ def check(ctx):
              "are the tensor bounds of pfhedge's Clamp / LeakyClamp (relu / leaky-relu / softplus widths; cases within 2^-16 of a clamp / activation "
              "kink rejected and counted) and a Black-Scholes module evaluated at a trainable strike shift and volatility mark-up, step-by-step (with "
              "a trainable partial adjustment of prev_hedge) and all steps at once. "
+             "Quantities computed with a graph on request, every simulated-market case (own generator; initial spot in {31/32, 15/16, 17/16, 9/8} as a tensor that "
+             "requires grad, Heston: default initial variance): the gradient of price(n_times, enable_grad=True) with respect to all parameters (model, "
+             "criterion, feature network) and the initial spot vs the derivative of the price from loss(c 1) = loss(pl), c = -price, member by member under the "
+             "same seed: the gradient of compute_loss for ERM / ES / quadratic CVaR, -(d loss(pl) - d loss(c 1)) / d_c loss(c 1) for the entropic loss (1e-9 of "
+             "the scale) and for the search-based cash amounts of OCE / isoelastic-behind-a-wrapper (1e-5; one key grad:price:search-cash); central finite "
+             "differences (2^-20 at 2e-5, then 2^-28 at 1e-3) of the loss along the initial spot and, closed-form cash amounts, of the price along the initial "
+             "spot and along a direction with entries in {+-1, +-1/2} through all float64 parameters (no-transaction-band cases within 2^-16 of a kink "
+             "rejected and counted); a backward pass through the simulation that raises: one key per primary class, the case is re-evaluated with a "
+             "constant initial spot.  Injected markets (main loop and H in {2,3}): the gradient of -criterion.cash(compute_portfolio, payoff) vs the gradient of "
+             "the loss (ERM, ES) resp. grad loss / (a loss) (entropic loss), 1e-9 of the scale. "
              "Op grad_h (the model lossOfH = hedgerPL on every path + applyCritH, the definitions the H >= 1 theorems of Lemmas/C14Multi.lean are "
              "stated about, at Dual Float): every one-instrument scenario above is also sent to it (must agree with the implementation and with "
              "op grad; the model computes the payoff itself); plus 50 (quick) / 500 (thorough) accepted scenarios with H in {2,3} hedging "
